@@ -144,9 +144,34 @@ let run_ugt (toks : string list) : string =
   done;
   Buffer.contents out
 
+(* generated HashMultiMapIterator::pvMove over the real key table's per-key counts (key iterator = number of remaining keys) *)
+let run_pmt (toks : string list) : string =
+  let counts = Array.of_list (Stdlib.List.map int_of_string toks) in
+  let n = Array.length counts in
+  let w = 1000 in
+  let zi = z_of_int and iz = int_of_z in
+  let k_null h = iz h <= 0 and k_next h = zi (iz h - 1) in
+  let k_begin h = zi (1 + iz h * w) in
+  let k_end h = let h' = iz h in zi (1 + h' * w + (if h' >= 1 && h' <= n then counts.(n - h') else 0)) in
+  let out = Buffer.create 64 in
+  for j = 0 to n - 1 do
+    for vi = 0 to counts.(j) do
+      let h = n - j in
+      Buffer.add_string out (Printf.sprintf " %d:%d>" j vi);
+      (match Gen_PairIterator.pvMove k_null k_next k_end k_begin (nat_of_int (n + 1)) (zi h) (zi (1 + h * w + vi)) with
+       | GenPrelude.Ok ((_, h'), p') ->
+           if iz p' = 0 then Buffer.add_string out "end"
+           else Buffer.add_string out (Printf.sprintf "%d:%d" (n - iz h') (iz p' - (1 + iz h' * w)))
+       | _ -> Buffer.add_string out "STUCK")
+    done
+  done;
+  Buffer.contents out
+
 let () = iter_lines (fun line ->
   match words line with
   | ("gc" | "ms" | "gp" | "fi") :: _ as w -> print_endline (run_gen w)
   | ("hm" | "hx") :: ops -> print_endline (run_hm ops)
   | "ugt" :: toks -> print_endline (run_ugt toks)
+  | "pmt" :: "PM" :: toks -> print_endline (run_pmt toks)
+  | ["pmt"; "PM"] -> print_endline ""
   | _ -> print_endline "?")
